@@ -655,7 +655,12 @@ func (c *c14Crawler) Run(ctx context.Context, _ []*peer.AddrInfo, ok crawler.Han
 	}
 }
 
-func runC14FullRT(s *sim.Sim) {
+func runC14FullRT(s *sim.Sim) { runC14FullRTWith(s, false) }
+
+// runC14FullRTWith: waiters selects the workload of the scenario
+// "fullrt-waiters" (c14_fullrt_waiters.go): always the stub crawler, and the
+// operations are mostly calls that wait for the instance's own crawl loop.
+func runC14FullRTWith(s *sim.Sim, waiters bool) {
 	s.MaxSteps = 900
 	defer c14ConstRand(s)()
 	n := s.Range("peers", 1, 4)
@@ -663,7 +668,7 @@ func runC14FullRT(s *sim.Sim) {
 	h := simhost.New(s, u.Self.ID, u.Self.Addrs, u.Name)
 	k := s.Range("k", 1, 4)
 	w := &c14World{s: s, u: u, hosts: []*simhost.Host{h}, k: k, rpcFault: []int{0, 8}[s.Draw("rpc-faults", 2)]}
-	realCrawler := s.Chance("real-crawler", 1, 2)
+	realCrawler := !waiters && s.Chance("real-crawler", 1, 2)
 	disableProv, disableVal := false, false
 	switch s.Draw("subsystems", 4) {
 	case 1:
@@ -678,6 +683,9 @@ func runC14FullRT(s *sim.Sim) {
 	nBoot := s.Range("bootstrap", 0, n)
 
 	f := newC14Flow(s, "fullrt")
+	if waiters {
+		f.name = "fullrt-waiters"
+	}
 	f.baseline()
 
 	var dss []*simds.DS
@@ -783,8 +791,21 @@ func runC14FullRT(s *sim.Sim) {
 	if !realCrawler {
 		more["trigger-crawl"] = func(ctx context.Context) (any, error) { return nil, frt.TriggerRefresh(ctx) }
 	}
-	c14RoutingOps(f, frt, u, s.Range("ops", 1, 4), more)
+	var waitingNow func() int
+	if waiters {
+		waitingNow = c14FullRTWaiters(f, frt, u, more)
+	} else {
+		c14RoutingOps(f, frt, u, s.Range("ops", 1, 4), more)
+	}
 	f.atClose = func() {
+		if waitingNow != nil {
+			if n := waitingNow(); n > 0 {
+				s.Count("probe_close_with_waiters")
+				if n > 1 {
+					s.Count("probe_close_with_several_waiters")
+				}
+			}
+		}
 		crawling := len(s.ParkedKind("crawl")) > 0
 		for _, p := range s.ParkedKind("rpc") {
 			if containsStr(p.ID, "crawl:") {
